@@ -16,6 +16,7 @@ package main
 
 import (
 	"fmt"
+	"go/constant"
 	"go/types"
 	"strings"
 
@@ -105,7 +106,7 @@ func (cd *CondDecl) matches(list []string, ins ssa.Instruction, write bool) (str
 			if write {
 				if st, ok := ins.(*ssa.Store); ok {
 					if tn, fn, ok := fieldRef(st.Addr); ok && tn == cd.Pkg+"."+cd.Type && fn == f {
-						if c, isC := st.Val.(*ssa.Const); isC && c.Value != nil && c.Int64() == 0 {
+						if c, isC := st.Val.(*ssa.Const); isC && isZeroConst(c) {
 							continue // resetting to the zero value cannot make a waiter's predicate true
 						}
 						if fa, ok := st.Addr.(*ssa.FieldAddr); ok && isLocalAlloc(fa.X) {
@@ -401,4 +402,18 @@ func (cd *CondDecl) signalAfter(f *ssa.Function, wb *ssa.BasicBlock, widx int) (
 		return false, "the function returns right after the write without signalling"
 	}
 	return true, "every path to a return signals the condition"
+}
+
+func isZeroConst(c *ssa.Const) bool {
+	if c.Value == nil {
+		return true
+	}
+	switch c.Value.Kind() {
+	case constant.Bool:
+		return !constant.BoolVal(c.Value)
+	case constant.Int:
+		v, ok := constant.Int64Val(c.Value)
+		return ok && v == 0
+	}
+	return false
 }
